@@ -175,7 +175,8 @@ def ensure_built(targets=None) -> float:
             return 0.0
         r = subprocess.run(["lake", "build", *targets], cwd=LEAN_DIR, capture_output=True, text=True)
         if r.returncode != 0 or not os.path.exists(DRIVER):
-            raise InfraError("lake build failed:\n" + (r.stdout + r.stderr)[-4000:])
+            lines = [ln for ln in (r.stdout + r.stderr).splitlines() if "error" in ln.lower()]
+            raise InfraError("lake build failed:\n" + "\n".join(lines[-12:]))
         open(stamp, "w").close()
     return time.time() - t0
 
